@@ -71,6 +71,11 @@ class SymClient(Client):
         if isinstance(f, ast.Attribute):
             if ast.unparse(f) in READ_ONLY_MODFUNCS:
                 return False
+            if f.attr == "get":
+                # dict.get(key[, default]) reads; Queue.get() / get(block, timeout) / get(timeout=..) takes an item out
+                queue_like = not call.args or any(k.arg in ("block", "timeout") for k in call.keywords) or \
+                    (isinstance(call.args[0], ast.Constant) and isinstance(call.args[0].value, bool))
+                return queue_like
             return f.attr not in READ_ONLY_METHODS
         return True
 
